@@ -4,10 +4,8 @@ NOTES = ('Technique family: contract-based deductive verification of the real co
 NOT_APPLICABLE = {
     'C03': 'subject is the output of two proc-macros (scale-info-derive, parity-scale-codec-derive) over all programs; macro bodies manipulate syn/quote token trees that neither Verus nor Kani can interpret; decided per generated program, i.e. by program generation - another family',
     'C04': 'quantifies over type expressions and over the behaviour of parity-scale-codec Encode impls (dependency code not under contract); a contract on type_info::<Option<T>>() would restate the impl, relating it to bytes needs a SCALE model of the dependency (proving a model)',
-    'C08': 'code is serde-derive output driving serde_json; no function in /repo to put a contract on, CBMC cannot execute serde_json symbolically at useful sizes',
     'C09': 'proc-macro over all programs x feature configurations (as C03); the one pure function (clean_type_string) is a private String pipeline covering a sliver of the statement',
     'C13': 'decided by rustc trait solver per generated program (programs that must compile) - no contract can express it',
-    'C15': 'a relation between different builds (feature sets) of the crate; a contract verifies one cfg at a time and the statement is about bytes produced by whole programs',
     'C19': 'schemars-generated schema x serde output x a JSON Schema validator - none of it is code of this repository that a verifier here can interpret',
     'C20': 'a statement about programs that must NOT type-check; decided by rustc per program',
 }
